@@ -43,6 +43,7 @@ pub fn run(obligation: &str) -> i32 {
     let mut rep = Rep::new();
     if obligation.starts_with("C02.needs_unnesting") { c02_needs_unnesting(&mut rep); return rep.finish("C02_unnesting"); }
     if obligation.starts_with("C02.") || obligation.starts_with("C05.") { c02_c05_assembly(&mut rep); return rep.finish("C02_C05_assembly"); }
+    if obligation.starts_with("C04.") { c04_bounds(&mut rep); return rep.finish("C04_bounds"); }
     if obligation.starts_with("C07.") { c07_octets_to_bits(&mut rep); return rep.finish("C07_octets_to_bits"); }
     if obligation.starts_with("C14.") { c14_numbering(&mut rep); return rep.finish("C14_numbering"); }
     if obligation.starts_with("C06.int_type_token") { c06_int_type_token(&mut rep); return rep.finish("C06.int_type_token"); }
@@ -375,4 +376,116 @@ fn c07_octets_to_bits(rep: &mut Rep) {
         rep.check("C07.octet_string_to_bit_string.eight_bits_per_octet_any_length", got.len() == 8 * bytes.len(), desc);
         rep.check("C07.is_bit_set.appends_the_comparison_bits_in_order", got == want(bytes), desc);
     }
+}
+
+// ---------------------------------------------------------------------------------------------- C04 (unit C04_bounds)
+fn c04_bounds(rep: &mut Rep) {
+    use rasn_compiler::verif_hooks::{hook_compare_optional, hook_intersect_single_and_range, hook_union_optional, hook_union_single_and_range};
+    const PTS: [i128; 7] = [i128::MIN, -129, -1, 0, 5, 256, i128::MAX];
+    let opts: Vec<Option<ASN1Value>> = std::iter::once(None).chain(PTS.iter().map(|v| Some(ASN1Value::Integer(*v)))).collect();
+    let int = |o: &Option<ASN1Value>| match o { Some(ASN1Value::Integer(i)) => Some(*i), _ => None };
+    for v in PTS {
+        let value = ASN1Value::Integer(v);
+        // value-level min / max
+        for w in PTS {
+            let other = ASN1Value::Integer(w);
+            let d = || format!("self={v} other={w}");
+            rep.check("C04.value_max.integers_give_the_larger", matches!(value.max(&other, None), Ok(ASN1Value::Integer(r)) if r == v.max(w)), d);
+            rep.check("C04.value_min.integers_give_the_smaller", matches!(value.min(&other, None), Ok(ASN1Value::Integer(r)) if r == v.min(w)), d);
+            rep.check("C04.value_min_max.integers_compare_numerically", matches!(value.min(&other, None), Ok(ASN1Value::Integer(r)) if r == v.min(w)) && matches!(value.max(&other, None), Ok(ASN1Value::Integer(r)) if r == v.max(w)), d);
+        }
+        rep.check("C04.unwrap_as_integer.integer_literals_only", matches!(value.unwrap_as_integer(), Ok(r) if r == v) && ASN1Value::Null.unwrap_as_integer().is_err() && ASN1Value::Boolean(true).unwrap_as_integer().is_err(), || format!("value={v}"));
+        for min in &opts { for max in &opts { for x1 in [false, true] { for x2 in [false, true] {
+            let d = || format!("value={v} min={:?} max={:?} x1={x1} x2={x2}", int(min), int(max));
+            let r = hook_intersect_single_and_range(&value, min.as_ref(), max.as_ref(), x1, x2);
+            rep.check("C04.intersect_single_and_range.integers_keep_the_single_value", matches!(&r, Ok(Some(SubtypeElements::SingleValue { value: rv, .. })) if *rv == value), d);
+            rep.check("C04.intersect_single_and_range.extensible_iff_an_operand_is", matches!(&r, Ok(Some(SubtypeElements::SingleValue { extensible, .. })) if *extensible == (x1 || x2)), d);
+            let r = hook_union_single_and_range(&value, min.as_ref(), max.as_ref(), x1, x2);
+            let want_min = int(min).map(|m| ASN1Value::Integer(m.min(v)));
+            let want_max = int(max).map(|m| ASN1Value::Integer(m.max(v)));
+            rep.check("C04.union_single_and_range.lower_end_of_the_hull", matches!(&r, Ok(Some(SubtypeElements::ValueRange { min: rmin, .. })) if *rmin == want_min), d);
+            rep.check("C04.union_single_and_range.upper_end_of_the_hull", matches!(&r, Ok(Some(SubtypeElements::ValueRange { max: rmax, .. })) if *rmax == want_max), d);
+            rep.check("C04.union_single_and_range.extensible_iff_an_operand_is", matches!(&r, Ok(Some(SubtypeElements::ValueRange { extensible, .. })) if *extensible == (x1 || x2)), d);
+        } } } }
+    }
+    // fold_constraint_set over expressions of two and three integer elements joined by UNION / INTERSECTION
+    {
+        use rasn_compiler::verif_hooks::hook_fold_constraint_set;
+        const A: [i128; 3] = [0, 5, 9];
+        let mut leaves: Vec<(SubtypeElements, String)> = vec![];
+        for x in [false, true] {
+            let m = if x { ", ..." } else { "" };
+            for v in A { leaves.push((SubtypeElements::SingleValue { value: ASN1Value::Integer(v), extensible: x }, format!("{v}{m}"))); }
+            for lo in [None, Some(0i128), Some(5)] { for hi in [None, Some(5i128), Some(9)] {
+                if let (Some(l), Some(h)) = (lo, hi) { if l > h { continue; } }
+                leaves.push((SubtypeElements::ValueRange { min: lo.map(ASN1Value::Integer), max: hi.map(ASN1Value::Integer), extensible: x },
+                    format!("{}..{}{m}", lo.map_or("MIN".to_string(), |v| v.to_string()), hi.map_or("MAX".to_string(), |v| v.to_string()))));
+            } }
+        }
+        let permits = |e: &SubtypeElements, v: i128| match e {
+            SubtypeElements::SingleValue { value: ASN1Value::Integer(i), .. } => *i == v,
+            SubtypeElements::ValueRange { min, max, .. } => min.as_ref().map_or(true, |m| matches!(m, ASN1Value::Integer(i) if *i <= v)) && max.as_ref().map_or(true, |m| matches!(m, ASN1Value::Integer(i) if v <= *i)),
+            _ => true,
+        };
+        let ext = |e: &SubtypeElements| matches!(e, SubtypeElements::SingleValue { extensible: true, .. } | SubtypeElements::ValueRange { extensible: true, .. });
+        let is_int = |e: &SubtypeElements| matches!(e, SubtypeElements::SingleValue { value: ASN1Value::Integer(_), .. }) || matches!(e, SubtypeElements::ValueRange { min, max, .. } if min.as_ref().map_or(true, |m| matches!(m, ASN1Value::Integer(_))) && max.as_ref().map_or(true, |m| matches!(m, ASN1Value::Integer(_))));
+        let lo = |e: &SubtypeElements| match e { SubtypeElements::SingleValue { value: ASN1Value::Integer(i), .. } => Some(*i), SubtypeElements::ValueRange { min: Some(ASN1Value::Integer(i)), .. } => Some(*i), _ => None };
+        let hi = |e: &SubtypeElements| match e { SubtypeElements::SingleValue { value: ASN1Value::Integer(i), .. } => Some(*i), SubtypeElements::ValueRange { max: Some(ASN1Value::Integer(i)), .. } => Some(*i), _ => None };
+        let ops = [(SetOperator::Union, "|"), (SetOperator::Intersection, "^")];
+        let probes: Vec<i128> = (-2..=12).collect();
+        for (a, ta) in &leaves { for (op1, t1) in &ops { for (b, tb) in &leaves {
+            // two elements
+            let set = SetOperation { base: a.clone(), operator: op1.clone(), operant: Box::new(ElementOrSetOperation::Element(b.clone())) };
+            let d = || format!("({ta} {t1} {tb})");
+            let r = hook_fold_constraint_set(&set);
+            let in_set = |v: i128| if *t1 == "|" { permits(a, v) || permits(b, v) } else { permits(a, v) && permits(b, v) };
+            rep.check("C04.fold_constraint_set.integer_expression_folds_to_an_integer_element", match &r { Ok(x) => x.as_ref().map_or(false, |f| is_int(f)), Err(_) => true }, d);
+            if let Ok(Some(f)) = &r {
+                rep.check("C04.fold_constraint_set.never_excludes_a_permitted_value", probes.iter().all(|v| !in_set(*v) || permits(f, *v)), d);
+                rep.check("C04.fold_constraint_set.extensible_iff_an_operand_is", ext(f) == (ext(a) || ext(b)), d);
+            }
+            if *t1 == "|" {
+                let hl = match (lo(a), lo(b)) { (Some(x), Some(y)) => Some(x.min(y)), _ => None };
+                let hh = match (hi(a), hi(b)) { (Some(x), Some(y)) => Some(x.max(y)), _ => None };
+                rep.check("C04.fold_constraint_set.union_of_two_elements_is_exactly_the_hull", matches!(&r, Ok(Some(f)) if lo(f) == hl && hi(f) == hh), d);
+            } else if matches!(a, SubtypeElements::ValueRange { .. }) && matches!(b, SubtypeElements::ValueRange { .. }) {
+                let ml = match (lo(a), lo(b)) { (Some(x), Some(y)) => Some(x.max(y)), (x, None) => x, (None, y) => y };
+                let mh = match (hi(a), hi(b)) { (Some(x), Some(y)) => Some(x.min(y)), (x, None) => x, (None, y) => y };
+                rep.check("C04.fold_constraint_set.intersection_of_two_ranges_is_exact", matches!(&r, Ok(Some(f)) if lo(f) == ml && hi(f) == mh), d);
+            }
+            if r.is_err() {
+                rep.check("C04.fold_constraint_set.two_elements_rejected_only_if_empty", *t1 == "^" && matches!(a, SubtypeElements::SingleValue { .. }) && matches!(b, SubtypeElements::SingleValue { .. }) && lo(a) != lo(b), d);
+            }
+            // three elements: a op1 (b op2 c), as the parser nests them
+            for (op2, t2) in &ops { for (c, tc) in leaves.iter().step_by(3) {
+                let inner = SetOperation { base: b.clone(), operator: op2.clone(), operant: Box::new(ElementOrSetOperation::Element(c.clone())) };
+                let set = SetOperation { base: a.clone(), operator: op1.clone(), operant: Box::new(ElementOrSetOperation::SetOperation(inner)) };
+                let d = || format!("({ta} {t1} ({tb} {t2} {tc}))");
+                let in_inner = |v: i128| if *t2 == "|" { permits(b, v) || permits(c, v) } else { permits(b, v) && permits(c, v) };
+                let in_set = |v: i128| if *t1 == "|" { permits(a, v) || in_inner(v) } else { permits(a, v) && in_inner(v) };
+                let r = hook_fold_constraint_set(&set);
+                rep.check("C04.fold_constraint_set.integer_expression_folds_to_an_integer_element", match &r { Ok(x) => x.as_ref().map_or(false, |f| is_int(f)), Err(_) => true }, d);
+                if let Ok(Some(f)) = &r {
+                    rep.check("C04.fold_constraint_set.never_excludes_a_permitted_value", probes.iter().all(|v| !in_set(*v) || permits(f, *v)), d);
+                    rep.check("C04.fold_constraint_set.extensible_iff_an_operand_is", ext(f) == (ext(a) || ext(b) || ext(c)), d);
+                }
+            } }
+        } } }
+    }
+    for a in &opts { for b in &opts { for take_min in [false, true] {
+        let d = || format!("first={:?} second={:?} predicate={}", int(a), int(b), if take_min { "min" } else { "max" });
+        let both = match (int(a), int(b)) { (Some(x), Some(y)) => Some(ASN1Value::Integer(if take_min { x.min(y) } else { x.max(y) })), _ => None };
+        let r = hook_compare_optional(a.as_ref(), b.as_ref(), take_min);
+        match (a, b) {
+            (Some(_), Some(_)) => rep.check("C04.compare_optional.both_present_use_the_predicate", matches!(&r, Ok(x) if *x == both), d),
+            (None, Some(s)) => rep.check("C04.compare_optional.missing_first_keeps_second", matches!(&r, Ok(Some(x)) if x == s), d),
+            (Some(f), None) => rep.check("C04.compare_optional.missing_second_keeps_first", matches!(&r, Ok(Some(x)) if x == f), d),
+            (None, None) => rep.check("C04.compare_optional.both_missing_is_unbounded", matches!(&r, Ok(None)), d),
+        }
+        let r = hook_union_optional(a.as_ref(), b.as_ref(), take_min);
+        match (a, b) {
+            (Some(_), Some(_)) => rep.check("C04.union_optional.both_present_use_the_predicate", matches!(&r, Ok(x) if *x == both), d),
+            _ => rep.check("C04.union_optional.open_end_stays_open", matches!(&r, Ok(None)), d),
+        }
+    } } }
 }
